@@ -72,16 +72,115 @@ class FakeGit:
             if anc is None or desc is None:
                 return 128, ""
             return (0 if anc in self.reach(desc) else 1), ""
-        if a[:2] == ["rev-list", "--count"]:
-            start = self.resolve(a[2])
-            assert a[3].startswith("^"), argv
-            excl = self.resolve(a[3][1:])
-            if start is None or excl is None:
-                return 128, ""
-            return 0, "%d\n" % len(self.reach(start) - self.reach(excl))
         if a[0] == "ls-files":
             return 0, "".join(f + "\n" for f in self.files)
-        raise AssertionError("fake git: unmodelled command line %r" % (argv,))
+        if a[0] == "rev-list":
+            r = self._rev_list(a[1:])
+            if r is not None:
+                return r
+        # A command line this model does not know (the code under test builds its git calls differently): ask the
+        # real git on a real repository with the same commit graph, translating the hashes both ways.
+        return self._real(argv)
+
+    def _rev_list(self, args):
+        """`git rev-list [--count] [--first-parent] <rev|^rev|a..b>...` (the forms a distance computation can take)."""
+        count = first_parent = False
+        pos, neg = [], []
+        for t in args:
+            if t == "--count":
+                count = True
+            elif t == "--first-parent":
+                first_parent = True
+            elif t.startswith("--"):
+                return None
+            elif ".." in t and "..." not in t:
+                x, y = t.split("..", 1)
+                neg.append(x or "HEAD")
+                pos.append(y or "HEAD")
+            elif t.startswith("^"):
+                neg.append(t[1:])
+            else:
+                pos.append(t)
+        ps, ns = [self.resolve(x) for x in pos], [self.resolve(x) for x in neg]
+        if None in ps or None in ns or not ps:
+            return 128, ""
+        excluded = set()
+        for n in ns:
+            excluded |= self.reach(n)
+        seen, stack = [], list(ps)
+        while stack:
+            x = stack.pop()
+            if x in seen or x in excluded:
+                continue
+            seen.append(x)
+            parents = self.commits.get(x, [])
+            stack.extend(parents[:1] if first_parent else parents)
+        if count:
+            return 0, "%d\n" % len(seen)
+        return None  # listing order is git's business: use the real one
+
+    # -------------------------------------------------------------- real git fallback
+    def _real(self, argv):
+        import os
+        import shutil
+        import tempfile
+        if getattr(self, "_realrepo", None) is None:
+            base = "/dev/shm" if os.path.isdir("/dev/shm") else None
+            d = tempfile.mkdtemp(prefix="vfw-fakegit-", dir=base)
+            env = dict(os.environ, GIT_AUTHOR_NAME="a", GIT_AUTHOR_EMAIL="a@x", GIT_COMMITTER_NAME="a", GIT_COMMITTER_EMAIL="a@x",
+                       GIT_AUTHOR_DATE="2020-01-01T00:00:00Z", GIT_COMMITTER_DATE="2020-01-01T00:00:00Z", GIT_CONFIG_NOSYSTEM="1",
+                       HOME="/nonexistent")
+
+            from . import driver as _drv
+
+            def g(*a):
+                with _drv.unguarded():
+                    r = subprocess.run(["git"] + list(a), cwd=d, env=env, capture_output=True, text=True)
+                if r.returncode != 0:
+                    raise AssertionError("fake git fallback: git %r failed: %s" % (a, r.stderr))
+                return r.stdout.strip()
+
+            g("init", "-q")
+            fmap, done = {}, set()
+            order = []
+
+            def visit(h):
+                if h in done or h not in self.commits:
+                    return
+                done.add(h)
+                for p in self.commits[h]:
+                    visit(p)
+                order.append(h)
+
+            for h in sorted(self.commits):
+                visit(h)
+            for i, h in enumerate(order):
+                args = ["commit-tree", "4b825dc642cb6eb9a060e54bf8d69288fbee4904", "-m", "c-%s" % h[:6]]
+                for p in self.commits[h]:
+                    args += ["-p", fmap[p]]
+                fmap[h] = g(*args)
+            if self.head is not None:
+                g("update-ref", "--no-deref", "HEAD", fmap[self.head])
+            for name, h in self.refs.items():
+                g("update-ref", "refs/heads/" + name, fmap[h])
+            if self.dirty and self.head is not None:
+                with open(os.path.join(d, "dirty"), "w") as f:
+                    f.write("x")
+                g("add", "dirty")
+            self._realrepo, self._fmap, self._renv = d, fmap, env
+            import atexit
+            atexit.register(shutil.rmtree, d, True)
+        tr = list(argv)
+        for f, r in self._fmap.items():
+            tr = [t.replace(f, r) for t in tr]
+        from . import driver
+        with driver.unguarded():
+            res = subprocess.run(tr, cwd=self._realrepo, env=self._renv, capture_output=True, text=True)
+        out = res.stdout
+        for f, r in self._fmap.items():
+            out = out.replace(r, f)
+        self.fallbacks = getattr(self, "fallbacks", 0) + 1
+        return res.returncode, out
 
 
 NO_GIT = FakeGit(is_repo=False)
